@@ -24,19 +24,25 @@ Oracles
              static_love_general(m_l, l) == 3/(2(l-1))/(1+m_l) likewise.
   l2         effective_rigidity == effective_rigidity_general(l=2); complex_love == complex_love_general(l=2);
              static_love == static_love_general(l=2): REL_TOL.
-  alias      TidalPy.tides.calc_* are these very functions (identity).
+             Keyword / positional / default-degree calls of the same helper agree to 1e-15 relative.
+  alias      the public names TidalPy.tides.calc_* return the same values as the love1d helpers (1e-15 x condition number;
+             values are compared, not object identity).
   array      array call == element-wise scalar calls to 4 ulp.
-  quick      quick_tidal_dissipation(...)['love_number_by_orderl'][l] equals the closed form averaged over the
-             distinct frequency signatures of degree l (harness enumeration, see tides_common.mode_sum; for l = 2,
-             synchronous rotation, that is the closed form at the single frequency n): 1e-11 relative to |k|
-             (the repository evaluates J through the jitted rheology function, the harness through its
-             .py_func: libm vs. LLVM pow/exp differ by <= 1e-15; measured worst 5.8e-16).
+  quick      quick_tidal_dissipation(...)['love_number_by_orderl'][l] is ONE value per degree although the modes of a degree
+             have different frequencies; how the repository groups and averages them is not part of the property, so the
+             oracle is grouping-agnostic (tides_common.love_hull_check): the harness evaluates the closed form at every
+             (l,m,p,q) mode frequency; if they all coincide (single frequency, CPL, elastic) the reported value must EQUAL
+             it (as k, Re k + i ts Im k or ts k for tidal_scale ts), otherwise its real and imaginary parts must lie
+             within the [min, max] of those values over the modes; slack 1e-11 |k| (jitted vs .py_func rheology: <= 1e-15).
+             A wrong Love number (wrong degree, wrong rigidity, a cached value of another degree) leaves the hull
+             unless the degree's own frequency dependence is as large as the error; a different but correct grouping
+             (e.g. `n_sig = n_coeff`) does not fire.
   solver     |k_RS - k_closed| <= 1e-6 + 50 delta + 3 (|mu~| + rho g R)/K,  delta = |k(rtol=1e-7) - k(rtol=1e-9)|
              (atol = 1e-4 rtol); discarded (counted) if a solve reports success=False or delta > 1e-4.
              Calibration (105 generated cases): delta <= 5e-9, error <= 1.6e-7 and <= 0.015 (|mu~|+rho g R)/K, i.e.
              <= 0.5 % of the tolerance; the precedence defect a47eb3a moves k by 1e-3 (stiff) .. 0.3 (intermediate).
   Calibration of the closed-form clauses (3000 generated cases): rigidity 3.6e-16, love 3.0e-16 x condition number,
-  l2 helpers bit-identical, quick 5.8e-16.
+  l2 helpers bit-identical, quick (single-frequency equality) 5.8e-16.
 
 Non-trivial: 0.01 < |m_l/(J mu)| < 100 (k neither saturated at 3/(2(l-1)) nor lost in rounding).
 
@@ -47,8 +53,10 @@ Sensitivity (tools/mut.py, quick tier, all CAUGHT):
   love1d.py  '(1. + eff_rigidity_general)' -> '(1. - eff_rigidity_general)' in static_love_general -> love(static), l2
   mode_manipulation.py 'order_l=tidal_order_l\n                )\n\n        # Pull' i.e. collapse_modes passing order_l=2
              for every degree                                       -> quick (l = 3)
-  mode_manipulation.py 'n_sig = abs(n_coeff)' -> 'n_sig = n_coeff' (more frequency signatures per frequency: changes only the
-             per-degree Love-number average; equivalent mutant for C10)  -> quick
+  seeded/C12-1 (tabulated (2l^2+4l+3)/l with a typo)              -> rigidity, love
+  seeded/C12-2 (Love number memoised per frequency signature without the degree) -> quick (l>2, hull)
+  Equivalent mutant, must be MISSED (and is): mode_manipulation.py 'n_sig = abs(n_coeff)' -> 'n_sig = n_coeff' (more
+  frequency signatures per frequency; only the repository's per-degree average changes).
 """
 import math
 from fractions import Fraction
@@ -73,6 +81,7 @@ LEVEL_NOTE = ('Trusts mpmath/Fraction arithmetic and the harness mode enumeratio
 CASES = {'quick': 6400, 'thorough': 200000}
 SHARDS = {'quick': 8, 'thorough': 16}
 REL_TOL = 1.0e-14
+DEFAULT_TOL = 1.0e-15      # keyword/positional/default-degree/public-alias calls of the same helper
 QUICK_TOL = 1.0e-11
 EPS = 2.0 ** -52
 RULE = ('Hypothesis draws kind (formula | quick | solver), degree l in 2..7, g, R, rho log-uniform, effective rigidity m_l '
@@ -81,7 +90,7 @@ RULE = ('Hypothesis draws kind (formula | quick | solver), degree l in 2..7, g, 
         'l_max); distinct = distinct argument hash.')
 ASSUMPTIONS = ['reference: k_l = 3/(2(l-1))/(1+m_l/(J mu)), m_l = (2l^2+4l+3) mu/(l rho g R), evaluated with Fraction / mpmath (40 digits)',
                'REL_TOL=1e-14 relative (x analytic condition number 1+|z|/|1+z|)',
-               'quick clause 1e-11 relative; harness averages the closed form over the repo grouping signatures',
+               'quick clause: reported per-degree k equals the closed form when all mode frequencies coincide, else lies in the min/max hull of the per-mode closed-form values (1e-11 |k| slack); grouping-agnostic',
                'solver clause: 1e-6 + 50*delta + 3(|mu|+rho g R)/K, delta from rtol 1e-7 vs 1e-9 solves; unconverged solves discarded']
 
 FORMULA_RHEOS = ['maxwell', 'newton', 'voigt', 'burgers', 'andrade', 'sundberg', 'andrade_freq', 'sundberg_freq',
@@ -279,7 +288,7 @@ def _evaluate(case):
             eff_pos = float(love1d.effective_rigidity_general(mj, g, R, rho, l))
         ref = _ref_rigidity(l, mj, g, R, rho)
         r = _rel(eff, ref)
-        c.check(r <= REL_TOL and eff == eff_pos, {'clause': 'rigidity', 'fn': 'effective_rigidity_general'},
+        c.check(r <= REL_TOL and _rel(eff, eff_pos) <= DEFAULT_TOL, {'clause': 'rigidity', 'fn': 'effective_rigidity_general'},
                 'l=%d mu=%r g=%r R=%r rho=%r: got %r, (2l^2+4l+3)/l*mu/(rho g R) = %r (rel %.2e)' % (l, mj, g, R, rho, eff, ref, r))
         zabs = abs(ref / (Jj * mj))
         c.label('regime:stiff' if zabs > 10 else ('regime:soft' if zabs < 0.1 else 'regime:mid'))
@@ -314,10 +323,10 @@ def _evaluate(case):
             s2g = float(love1d.static_love_general(e2, order_l=2))
             k2d = complex(love1d.complex_love_general(Jj, mj, e2))       # default degree is 2
             e2d = float(love1d.effective_rigidity_general(mj, g, R, rho))
-        c.check(_rel(e2, e2g) <= REL_TOL and e2d == e2g, {'clause': 'l2', 'fn': 'effective_rigidity'},
+        c.check(_rel(e2, e2g) <= REL_TOL and _rel(e2d, e2g) <= DEFAULT_TOL, {'clause': 'l2', 'fn': 'effective_rigidity'},
                 'mu=%r g=%r R=%r rho=%r: effective_rigidity=%r, general(l=2)=%r, general(default)=%r' % (mj, g, R, rho, e2, e2g, e2d))
         tol = REL_TOL * _cond(Jj, mj, e2)
-        c.check(_rel(k2, k2g) <= tol and k2d == k2g, {'clause': 'l2', 'fn': 'complex_love'},
+        c.check(_rel(k2, k2g) <= tol and _rel(k2d, k2g) <= DEFAULT_TOL * _cond(Jj, mj, e2), {'clause': 'l2', 'fn': 'complex_love'},
                 'J=%r mu=%r m=%r: complex_love=%r, general(l=2)=%r, general(default)=%r' % (Jj, mj, e2, k2, k2g, k2d))
         c.check(_rel(s2, s2g) <= REL_TOL, {'clause': 'l2', 'fn': 'static_love'},
                 'm=%r: static_love=%r, general(l=2)=%r' % (e2, s2, s2g))
@@ -343,14 +352,20 @@ def _evaluate(case):
                     worst = max(worst, rr / tol)
             c.check(ok and worst <= 1.0, {'clause': 'array', 'fn': name},
                     'array call vs scalar calls: shape %r, worst deviation %.2f x tolerance' % (vec.shape, worst))
+    # the public names TidalPy.tides.calc_* (observe_at of the property) must give the same values
     from TidalPy import tides
-    c.check(tides.calc_effective_rigidity is love1d.effective_rigidity
-            and tides.calc_effective_rigidity_general is love1d.effective_rigidity_general
-            and tides.calc_complex_love is love1d.complex_love
-            and tides.calc_complex_love_general is love1d.complex_love_general
-            and tides.calc_static_love is love1d.static_love
-            and tides.calc_static_love_general is love1d.static_love_general,
-            {'clause': 'alias'}, 'TidalPy.tides.calc_* do not alias the love1d helpers')
+    mj, Jj = float(mu[0]), complex(J[0])
+    e0, k0, s0, e20, k20, s20 = scalar_out[0]
+    with repo_call('TidalPy.tides.calc_*'):
+        pub = [(float(tides.calc_effective_rigidity_general(mj, g, R, rho, order_l=l)), e0, 1.0),
+               (complex(tides.calc_complex_love_general(Jj, mj, e0, order_l=l)), k0, _cond(Jj, mj, e0)),
+               (float(tides.calc_static_love_general(e0, order_l=l)), s0, 1.0),
+               (float(tides.calc_effective_rigidity(mj, g, R, rho)), e20, 1.0),
+               (complex(tides.calc_complex_love(Jj, mj, e20)), k20, _cond(Jj, mj, e20)),
+               (float(tides.calc_static_love(e20)), s20, 1.0)]
+    worst = max(_rel(a, b_) / cnd for a, b_, cnd in pub)
+    c.check(worst <= DEFAULT_TOL, {'clause': 'alias'},
+            'TidalPy.tides.calc_* differ from the love1d helpers by %.2e (x condition number)' % worst)
     c.nontrivial = nontrivial
     return c.result()
 
@@ -372,9 +387,9 @@ def _evaluate_quick(case):
     try:
         res = tc.call_repo('quick_tidal_dissipation', quick_tidal_dissipation, **kw)
     except RepoRaised as e:
-        # KF-C10-zero-dissipation-q / KF-C10-newton-zero-frequency: collapse_modes raises ZeroDivisionError when no
-        # mode dissipates or the Newton compliance is 0 at a zero-frequency mode.  Those are C10's findings (heating
-        # cannot be returned); here they only remove the case, everything else is re-raised as a failure.
+        # KF-C10-newton-zero-frequency: collapse_modes raises 'complex division by zero' when the Newton compliance is 0
+        # at a zero-frequency mode.  That is C10's known finding (no Love number is returned); here it only removes the
+        # case.  Everything else is re-raised as a failure.
         if tc.known_exception_class(b, ms, e.exc) is None:
             raise
         return discard('excluded_known_finding', ['kind:quick'])
@@ -383,26 +398,20 @@ def _evaluate_quick(case):
     loves = res['love_number_by_orderl']
     nontrivial = False
     for l in range(2, su.l_max + 1):
-        single = ms.n_sig.get(l, 0) >= 1 and b.sync and l == 2 and su.trunc == 2 and b.obl is None
-        c.label('quick:single_freq' if single else 'quick:multi_freq')
         if l not in loves:
             c.fail({'clause': 'quick', 'kind': 'missing_degree', 'l': l}, 'love_number_by_orderl has no entry for l=%d' % l)
             continue
         got = np.asarray(loves[l], dtype=complex) * np.ones(su.k)
-        ref = np.asarray(ms.love_avg[l], dtype=complex) * np.ones(su.k)
-        if b.rheology in ('cpl', 'ctl'):
-            pass  # the CPL/CTL "Love number" is the fixed k2 (1 - i/Q) | k2 (1 - i w dt) for every degree
-        else:
+        if b.rheology not in ('cpl', 'ctl'):
             kn, _, _ = tc.body_love(b, l, su.n)
             z = np.abs(1.5 / (l - 1.0) / kn - 1.0)              # = |m_l/(J mu)| at the orbital frequency
             if l == su.l_max:
                 nontrivial = bool(np.any((z > 0.01) & (z < 100.0)))
-        worst = 0.0
-        for j in range(su.k):
-            worst = max(worst, _rel(got[j], ref[j]))
-        c.check(worst <= QUICK_TOL, {'clause': 'quick', 'what': 'love_number_by_orderl', 'l': 'l2' if l == 2 else 'l>2'},
-                'l=%d rheology=%s: reported %r, closed form averaged over %d frequency signature(s) %r (rel %.2e)'
-                % (l, b.rheology, got[:3], ms.n_sig.get(l, 0), ref[:3], worst))
+        ok, single, det = tc.love_hull_check(ms, l, got, b.tidal_scale, QUICK_TOL)
+        c.label('quick:single_freq' if single else 'quick:multi_freq')
+        c.check(ok, {'clause': 'quick', 'what': 'love_number_by_orderl', 'l': 'l2' if l == 2 else 'l>2',
+                     'mode': 'equal' if single else 'hull'},
+                'l=%d rheology=%s tidal_scale=%r: %s' % (l, b.rheology, b.tidal_scale, det))
     c.nontrivial = nontrivial or b.rheology in ('cpl', 'ctl')
     return c.result()
 
